@@ -870,4 +870,9 @@ impl LocalDestination {
 #[allow(missing_docs, unused_imports, dead_code, clippy::all, clippy::pedantic, clippy::nursery)]
 pub mod verif_hooks {
     use super::*;
+
+    /// `LocalDestination::set_times` (what restore calls for every entry)
+    pub fn set_times(dest: &LocalDestination, item: &Path, meta: &Metadata) -> Result<(), String> {
+        dest.set_times(item, meta).map_err(|e| format!("{e:?}"))
+    }
 }
